@@ -58,6 +58,17 @@ class MQueue(Model):
         return not self._q
 
 
+def m_deque(it=()):
+    return list(it)
+
+
+def m_counter(it=()):
+    d = {}
+    for x in it:
+        d[x] = d.get(x, 0) + 1
+    return d
+
+
 def m_defaultdict(factory):
     class DD(dict):
         def __missing__(self, k):
@@ -83,6 +94,41 @@ def bind_module_constants(tree, env):
                 env[name] = me.ev(st.value)
             except (Unsupported, ModelRaise, Exception):
                 continue
+
+
+class MChain(Model):
+    def __call__(self, *its):
+        return itertools.chain(*its)
+
+    def from_iterable(self, it):
+        return itertools.chain.from_iterable(it)
+
+
+class MItertools(Model):
+    chain = MChain()
+    product = staticmethod(itertools.product)
+    combinations = staticmethod(itertools.combinations)
+    permutations = staticmethod(itertools.permutations)
+    islice = staticmethod(itertools.islice)
+    count = staticmethod(itertools.count)
+    repeat = staticmethod(itertools.repeat)
+    zip_longest = staticmethod(itertools.zip_longest)
+    accumulate = staticmethod(itertools.accumulate)
+
+
+class MMath(Model):
+    import math as _m
+
+    ceil = staticmethod(_m.ceil)
+    floor = staticmethod(_m.floor)
+    log2 = staticmethod(_m.log2)
+    log = staticmethod(_m.log)
+    sqrt = staticmethod(_m.sqrt)
+    inf = _m.inf
+
+
+class MFunctools(Model):
+    reduce = staticmethod(functools.reduce)
 
 
 class Package:
@@ -143,6 +189,8 @@ class Package:
             "primitive_gates": list(self.voc["primitive_gates"]), "addable_types": list(self.voc["addable_types"]), "supported_types": list(self.voc["supported_types"]),
             "reduce": functools.reduce, "combinations": itertools.combinations, "product": itertools.product,
             "defaultdict": m_defaultdict, "Queue": MQueue, "bin": bin, "generic_flop": self.generic_flop,
+            "chain": MChain(), "itertools": MItertools(), "math": MMath(), "functools": MFunctools(), "permutations": itertools.permutations,
+            "islice": itertools.islice, "zip_longest": itertools.zip_longest, "deque": m_deque, "Counter": m_counter, "OrderedDict": dict,
         })
         self._bind_imports(rel, env)
         bi = BlockInterp(env, max_steps=self.max_steps)
